@@ -34,7 +34,9 @@ CLAIMED = {
  'C03': ('model_checking', '3 (C03)',
          'One API call on a directly constructed connected WebSocket with symbolic payload bytes / code points (all planes) / close code+reason and a symbolic masking key; '
          'the bytes passed to sendall are decoded by an independent RFC 6455 5.2 decoder: one frame, FIN, RSV clear, masked, minimal length form, control <= 125, unmask == caller '
-         'payload; rejected calls raise TypeError/ValueError and write nothing. XOR-table lemma discharged per row from the real _XOR_TABLE.'),
+         'payload; rejected calls raise TypeError/ValueError and write nothing. XOR-table lemma discharged per row from the real _XOR_TABLE. '
+         'Plus: the same calls with a payload whose LENGTH is a solver variable (abstract content block; 0 <= L < 2^63 through Frame.build, <= 2^17 through the API): header '
+         'announces exactly L in the shortest form and every residue class of the block is XORed with the right key byte, for every length at once.'),
  'C07': ('model_checking', '3 (C07)',
          'Handshake variant x raw symbolic frame bytes x transport end x symbolic faults x application reactions at solver-chosen events; a monitor automaton over event names '
          '(independent of lomond) plus a bounded-step termination obligation (livelock => violation, not a hang).'),
